@@ -95,6 +95,12 @@ func (m *Model) judgeBurn(c *Call, v *Verdict, args [][]byte) {
 	if value.Cmp(acc.bal(suffix)) > 0 {
 		v.fail(pC02, "ESDTBurn/overdraft", "burning %v exceeds the holding %v", value, acc.bal(suffix))
 	}
+	if e := acc.entry(suffix); e.Meta != nil && value.Sign() > 0 {
+		if info, _ := m.tokenOfSuffix(suffix); info != nil && !acc.hasRole([]byte(info.ID), refESDTRoleNFTBurn) {
+			// the identifier argument spells the storage key of an NFT / SFT holding: burning from it is an NFT burn
+			v.fail(pC03, "ESDTBurn/nft-holding-burnt-without-role", "the identifier %x is the key of the caller's holding of %q nonce %d: burning from it needs the NFT burn role", token, info.ID, e.Meta.Nonce)
+		}
+	}
 	m.flagChecks(v, c, c.Caller, token, suffix, "ESDTBurn")
 	v.Charge = u64p(m.gas(c.Shard, "ESDTBurn"))
 	v.Apply = func(res *Result) []Clause {
@@ -348,7 +354,14 @@ func (m *Model) judgeRoles(c *Call, v *Verdict, args [][]byte, dstLocal bool) {
 		cur := append([]string{}, acc.Roles[string(token)]...)
 		for _, r := range args[1:] {
 			if set {
-				cur = append(cur, string(r))
+				// (a repeated role - never sent by the disciplined system contract - is held once)
+				dup := false
+				for _, x := range cur {
+					dup = dup || x == string(r)
+				}
+				if !dup {
+					cur = append(cur, string(r))
+				}
 				continue
 			}
 			for i, x := range cur {
